@@ -1,6 +1,7 @@
 package main
 
 import (
+	"verif/harness/internal/srcsel"
 	"bytes"
 	"fmt"
 	"go/ast"
@@ -21,10 +22,7 @@ import (
 // that reading, so the Coq development carries the obligation "shape = baseline".
 func shapeOf(dir string) ([]string, error) {
 	fset := token.NewFileSet()
-	parsed, err := parser.ParseDir(fset, dir, func(fi os.FileInfo) bool {
-		n := fi.Name()
-		return !strings.HasSuffix(n, "_test.go") && n != "genalphabet.go" && !strings.HasPrefix(n, "verif_export")
-	}, parser.SkipObjectResolution)
+	parsed, err := parser.ParseDir(fset, dir, srcsel.Filter(dir), parser.SkipObjectResolution|parser.ParseComments)
 	if err != nil {
 		return nil, err
 	}
@@ -70,7 +68,17 @@ func shapeOf(dir string) ([]string, error) {
 					for _, sp := range gd.Specs {
 						vs := sp.(*ast.ValueSpec)
 						for i, id := range vs.Names {
-							if !used[id.Name] {
+							effectful := false // an initialiser that calls something runs at package initialisation
+							if i < len(vs.Values) {
+								ast.Inspect(vs.Values[i], func(n ast.Node) bool {
+									switch n.(type) {
+									case *ast.CallExpr, *ast.FuncLit:
+										effectful = true
+									}
+									return true
+								})
+							}
+							if !used[id.Name] && !effectful {
 								continue
 							}
 							desc := "var " + id.Name
@@ -96,6 +104,9 @@ func shapeOf(dir string) ([]string, error) {
 						ts := sp.(*ast.TypeSpec)
 						st, ok := ts.Type.(*ast.StructType)
 						if !ok {
+							// every other named type is listed with its underlying type: a new wrapper type (with its own
+							// method set, e.g. a sort.Interface with another Less) is a change of shape
+							items = append(items, "type "+ts.Name.Name+" "+show(ts.Type))
 							continue
 						}
 						var fs []string
@@ -113,6 +124,212 @@ func shapeOf(dir string) ([]string, error) {
 					}
 				}
 			}
+		}
+	}
+	pkgVarNames := map[string]bool{}
+	for _, pk := range parsed {
+		for _, f := range pk.Files {
+			for _, d := range f.Decls {
+				if gd, ok := d.(*ast.GenDecl); ok && gd.Tok == token.VAR {
+					for _, sp := range gd.Specs {
+						for _, id := range sp.(*ast.ValueSpec).Names {
+							pkgVarNames[id.Name] = true
+						}
+					}
+				}
+			}
+		}
+	}
+	localNames := func(fd *ast.FuncDecl) map[string]bool { // names (re)declared inside the function: parameters, results, := and var
+		m := map[string]bool{}
+		add := func(fl *ast.FieldList) {
+			if fl != nil {
+				for _, f := range fl.List {
+					for _, id := range f.Names {
+						m[id.Name] = true
+					}
+				}
+			}
+		}
+		add(fd.Recv)
+		add(fd.Type.Params)
+		add(fd.Type.Results)
+		if fd.Body != nil {
+			ast.Inspect(fd.Body, func(n ast.Node) bool {
+				switch v := n.(type) {
+				case *ast.AssignStmt:
+					if v.Tok == token.DEFINE {
+						for _, l := range v.Lhs {
+							if id, ok := l.(*ast.Ident); ok {
+								m[id.Name] = true
+							}
+						}
+					}
+				case *ast.ValueSpec:
+					for _, id := range v.Names {
+						m[id.Name] = true
+					}
+				case *ast.RangeStmt:
+					if v.Tok == token.DEFINE {
+						for _, e := range []ast.Expr{v.Key, v.Value} {
+							if id, ok := e.(*ast.Ident); ok {
+								m[id.Name] = true
+							}
+						}
+					}
+				}
+				return true
+			})
+		}
+		return m
+	}
+	predeclared := map[string]bool{"append": true, "cap": true, "clear": true, "close": true, "complex": true, "copy": true, "delete": true, "imag": true,
+		"len": true, "make": true, "max": true, "min": true, "new": true, "panic": true, "print": true, "println": true, "real": true, "recover": true,
+		"bool": true, "byte": true, "error": true, "int": true, "int8": true, "int16": true, "int32": true, "int64": true, "rune": true, "string": true,
+		"uint": true, "uint8": true, "uint16": true, "uint32": true, "uint64": true, "uintptr": true, "float32": true, "float64": true,
+		"true": true, "false": true, "nil": true, "iota": true, "any": true}
+	for _, pk := range parsed {
+		if strings.HasSuffix(pk.Name, "_test") || pk.Name == "main" {
+			continue
+		}
+		for fn, f := range pk.Files {
+			base := filepath.Base(fn)
+			for _, im := range f.Imports {
+				path := strings.Trim(im.Path.Value, `"`)
+				sensitive := map[string]bool{"unsafe": true, "C": true, "syscall": true, "os": true, "os/exec": true, "os/signal": true, "runtime": true,
+					"runtime/debug": true, "reflect": true, "testing": true, "plugin": true, "net/http": true, "sync/atomic": true, "flag": true}
+				if sensitive[path] || strings.HasPrefix(path, "golang.org/x/sys") || (im.Name != nil && (im.Name.Name == "_" || im.Name.Name == ".")) {
+					items = append(items, "import "+path+" in "+base)
+				}
+			}
+			for _, cg := range f.Comments {
+				for _, c := range cg.List {
+					if strings.HasPrefix(c.Text, "//go:linkname") || strings.HasPrefix(c.Text, "//go:noescape") || strings.HasPrefix(c.Text, "//go:nosplit") {
+						items = append(items, "directive "+strings.Join(strings.Fields(c.Text), " ")+" in "+base)
+					}
+				}
+			}
+			for _, d := range f.Decls {
+				switch d := d.(type) {
+				case *ast.FuncDecl:
+					if d.Recv == nil && d.Name.Name == "init" {
+						items = append(items, "func init in "+base)
+					}
+					if d.Recv != nil && len(d.Recv.List) == 1 { // method sets: a new method (String, Error, Less, …) can be reached by reflection / interfaces
+						t := d.Recv.List[0].Type
+						if st, ok := t.(*ast.StarExpr); ok {
+							t = st.X
+						}
+						if id, ok := t.(*ast.Ident); ok {
+							items = append(items, "method "+id.Name+"."+d.Name.Name)
+						}
+					}
+					if d.Body != nil { // writers of package-level variables
+						fname := d.Name.Name
+						ast.Inspect(d.Body, func(n ast.Node) bool {
+							mark := func(e ast.Expr) {
+								for {
+									switch v := e.(type) {
+									case *ast.IndexExpr:
+										e = v.X
+										continue
+									case *ast.SelectorExpr:
+										e = v.X
+										continue
+									case *ast.StarExpr:
+										e = v.X
+										continue
+									case *ast.ParenExpr:
+										e = v.X
+										continue
+									case *ast.Ident:
+										if pkgVarNames[v.Name] && !localNames(d)[v.Name] {
+											items = append(items, "write to package-level "+v.Name+" in func "+fname)
+										}
+									}
+									return
+								}
+							}
+							switch v := n.(type) {
+							case *ast.AssignStmt:
+								for _, l := range v.Lhs {
+									mark(l)
+								}
+							case *ast.IncDecStmt:
+								mark(v.X)
+							case *ast.UnaryExpr:
+								if v.Op == token.AND { // address taken: may be written through the pointer
+									if id, ok := v.X.(*ast.Ident); ok && pkgVarNames[id.Name] && !localNames(d)[id.Name] {
+										items = append(items, "address of package-level "+id.Name+" taken in func "+fname)
+									}
+								}
+							}
+							return true
+						})
+					}
+					if d.Recv == nil && predeclared[d.Name.Name] {
+						items = append(items, "shadows predeclared "+d.Name.Name+" (func) in "+base)
+					}
+				case *ast.GenDecl:
+					for _, sp := range d.Specs {
+						switch sp := sp.(type) {
+						case *ast.ValueSpec:
+							for _, id := range sp.Names {
+								if predeclared[id.Name] {
+									items = append(items, "shadows predeclared "+id.Name+" in "+base)
+								}
+							}
+						case *ast.TypeSpec:
+							if predeclared[sp.Name.Name] {
+								items = append(items, "shadows predeclared "+sp.Name.Name+" (type) in "+base)
+							}
+						}
+					}
+				}
+			}
+		}
+	}
+	// the files of the package and how the build selects them
+	ents, _ := os.ReadDir(dir)
+	for _, e := range ents {
+		if e.IsDir() || !strings.HasSuffix(e.Name(), ".go") {
+			continue
+		}
+		switch srcsel.Classify(filepath.Join(dir, e.Name())) {
+		case srcsel.Normal:
+			items = append(items, "file "+e.Name())
+		case srcsel.Hook:
+			items = append(items, "file "+e.Name()+" (hook: built only with -tags verif)")
+			// what a hook file declares is part of the shape too: hooks only add exports named Verif…
+			if hf, herr := parser.ParseFile(token.NewFileSet(), filepath.Join(dir, e.Name()), nil, parser.SkipObjectResolution); herr == nil {
+				for _, d := range hf.Decls {
+					switch d := d.(type) {
+					case *ast.FuncDecl:
+						if !strings.HasPrefix(d.Name.Name, "Verif") && !strings.HasPrefix(d.Name.Name, "verif") {
+							items = append(items, "hook file "+e.Name()+" declares func "+d.Name.Name+" (not a Verif… export)")
+						}
+					case *ast.GenDecl:
+						if d.Tok != token.IMPORT {
+							for _, sp := range d.Specs {
+								switch sp := sp.(type) {
+								case *ast.ValueSpec:
+									for _, id := range sp.Names {
+										if !strings.HasPrefix(strings.ToLower(id.Name), "verif") {
+											items = append(items, "hook file "+e.Name()+" declares "+id.Name)
+										}
+									}
+								case *ast.TypeSpec:
+									if !strings.HasPrefix(strings.ToLower(sp.Name.Name), "verif") {
+										items = append(items, "hook file "+e.Name()+" declares type "+sp.Name.Name)
+									}
+								}
+							}
+						}
+					}
+				}
+			}
+		case srcsel.Flagged:
+			items = append(items, "file "+e.Name()+" (EXCLUDED from the -tags verif build: the tested binary differs from the shipped one)")
 		}
 	}
 	sort.Strings(items)
